@@ -188,6 +188,7 @@ def _r2_level1_tiles(run):
 
 def _r3_div4(run):
     project = run.project
+    toastgeom.compiled_midpoint(run, "C04.R3")
     f, tile, kids, r = toastgeom.div4_facts(project)
     run.note_func(f)
     if kids is None:
@@ -307,6 +308,15 @@ def _r5_routes(run):
     if n_fwd < 4:
         run.undecided("C04.R5", None, None, "only %d coordsys-forwarding call sites found (4 confirmed by hand)" % n_fwd, kind="floor",
                       construct="<coordsys forwarding>", file="toasty/toast.py")
+    # (a') the point-lookup route: it starts from the level-1 tile of the requested system that holds the point (the level-1
+    # ranges agree with the corner table, per coordinate system) and only ever steps to a child from _div4 (C12.R2 / R3) -
+    # otherwise the tile it names at (level, x, y) is not the tile the other routes build there
+    from . import C12 as c12
+    from . import common as _common
+
+    def lookup(sub):
+        c12.run(sub)
+    _common.delegate(run, "C04.R5", "C12", lookup, only_rules={"C12.R2", "C12.R3"}, note="premise: the lookup route walks the same tiles as enumeration")
     # (b) generate_tiles delegates to generate_tiles_filtered with an always-true filter
     f = project.fn(T + ".generate_tiles")
     run.note_func(f)
